@@ -263,6 +263,27 @@ M("c04-probe-mutates", "C04", "json_tokener.c",
 M("c04-benign-reset-order", "C04", "json_tokener.c",
   "\ttok->depth = 0;\n\ttok->err = json_tokener_success;\n\ttok->high_surrogate = 0;", "\ttok->high_surrogate = 0;\n\ttok->err = json_tokener_success;\n\ttok->depth = 0;", expect="silent")
 
+# ---- C03 -------------------------------------------------------------------------------------
+M("c03-no-flush-string", "C03", "json_tokener.c",
+  "\t\t\t\tif (!ADVANCE_CHAR(str, tok) || !PEEK_CHAR(c, tok))\n\t\t\t\t{\n\t\t\t\t\tprintbuf_memappend_checked(tok->pb, case_start,\n\t\t\t\t\t                           str - case_start);\n\t\t\t\t\tgoto out;\n\t\t\t\t}\n\t\t\t}\n\t\t}\n\t\tbreak;\n\n\t\tcase json_tokener_state_string_escape:",
+  "\t\t\t\tif (!ADVANCE_CHAR(str, tok) || !PEEK_CHAR(c, tok))\n\t\t\t\t{\n\t\t\t\t\tgoto out;\n\t\t\t\t}\n\t\t\t}\n\t\t}\n\t\tbreak;\n\n\t\tcase json_tokener_state_string_escape:",
+  needle="C03")
+M("c03-local-state", "C03", "json_tokener.c",
+  "\tunsigned int nBytes = 0;\n", "\tunsigned int nBytes = 0;\n\tint seen_star = 0;\n\tint *seen_starp = &seen_star;\n", expect="silent")
+M("c03-comment-end-in-local", "C03", "json_tokener.c",
+  "\t\t\tprintbuf_memappend_checked(tok->pb, case_start, 1 + str - case_start);\n\t\t\tstate = json_tokener_state_comment_end;",
+  "\t\t\tprintbuf_memappend_checked(tok->pb, case_start, 1 + str - case_start);\n\t\t\tstate = (len == 1) ? json_tokener_state_comment : json_tokener_state_comment_end;",
+  needle="C03.R6")
+M("c03-success-keeps-level", "C03", "json_tokener.c",
+  "\t\tfor (ii = tok->depth; ii >= 0; ii--)\n\t\t\tjson_tokener_reset_level(tok, ii);\n\t\treturn ret;",
+  "\t\tfor (ii = tok->depth; ii > 0; ii--)\n\t\t\tjson_tokener_reset_level(tok, ii);\n\t\treturn ret;", needle="C03.R5")
+M("c03-eof-in-comment", "C03", "json_tokener.c",
+  "\t\tif (tok->depth != 0 ||\n\t\t    (state != json_tokener_state_finish && saved_state != json_tokener_state_finish))",
+  "\t\tif ((state != json_tokener_state_finish && saved_state != json_tokener_state_finish))", needle="C03.R5")
+M("c03-escape-state-in-local", "C03", "json_tokener.c",
+  "\t\t\tcase 'u':\n\t\t\t\ttok->ucs_char = 0;\n\t\t\t\ttok->st_pos = 0;",
+  "\t\t\tcase 'u':\n\t\t\t\ttok->ucs_char = 0;\n\t\t\t\ttok->st_pos = (tok->char_offset + 1 == len) ? 1 : 0;", needle="C03.R6")
+
 
 def sh(cmd, **kw):
     return subprocess.run(cmd, shell=isinstance(cmd, str), stdout=subprocess.PIPE, stderr=subprocess.STDOUT, text=True, **kw)
